@@ -530,7 +530,7 @@ func (vc *FuncVC) staleCheck(st *State, key string, idx Term) {
 		return
 	}
 	s := vc.keys[key]
-	vc.oblige("D", fmt.Sprintf("unmodified/%s#%d", key, vc.ord("unmodified")), vc.reach[vc.curBlock], Implies(vc.inOperand(vc.readRoots, idx), Eq(vc.load(st, key, idx, s), vc.load(vc.entry, key, idx, s))), vc.propTags("C05"), vc.curPos, "an operand read returns the operand's value at entry (not something written through an aliased destination): "+key)
+	vc.oblige("D", fmt.Sprintf("unmodified/%s#%d", key, vc.ord("unmodified")), vc.reach[vc.curBlock], Implies(vc.inOperand(vc.readRoots, idx), Eq(vc.load(st, key, idx, s), vc.load(vc.entry, key, idx, s))), []string{"C05"}, vc.curPos, "an operand read returns the operand's value at entry (not something written through an aliased destination): "+key)
 }
 
 // inOperand: address a lies inside one of the named operand objects.
@@ -573,7 +573,7 @@ func (vc *FuncVC) readCheck(st *State, key string, idx Term) {
 	if vc.defKeys == nil || !vc.defKeys[key] || vc.discovery > 0 {
 		return
 	}
-	vc.oblige("D", fmt.Sprintf("defined/%s#%d", key, vc.ord("defined")), vc.reach[vc.curBlock], vc.isDef(st, key, idx), vc.propTags("C05", "C06"), vc.curPos, "the previous contents of a destination are not read: "+key)
+	vc.oblige("D", fmt.Sprintf("defined/%s#%d", key, vc.ord("defined")), vc.reach[vc.curBlock], vc.isDef(st, key, idx), []string{"C05", "C06"}, vc.curPos, "the previous contents of a destination are not read: "+key)
 }
 
 // allDef: every leaf of the object of type t at address a is defined.
